@@ -16,8 +16,10 @@
      is_mutable / is_case_sensitive: bool                             -> is_mut / is_cs
    Taxon objects are identities (tid); Taxon.__hash__/__eq__ are identity based, so a dict keyed by
    Taxon objects is an association list keyed by tid.  Taxon.label -> label_of w t (w_lab);
-   Taxon.lower_cased_label -> lower (label_of w t) (its cache is not modelled);
-   str(label).lower() -> lower label.
+   Taxon.lower_cased_label is translated from Taxon._get_lower_cased_label (Gen/Namespace.v:
+   py_Taxon_lower_cased_label); its cache is not represented: the generator checks that the cache is
+   reset by the only assignment to _label and filled only by the normal form of the current label;
+   str(x).lower() / .casefold() -> py_str_norm.
 
    Python dict semantics relied on: d[k] = v replaces the binding of k (aset); k in d <-> a binding
    exists (alookup); d[k] raises KeyError when there is none; d.pop(k, None) returns the bound value
@@ -274,12 +276,16 @@ Definition py_new_taxon_obj (w : world) (label : pyval) : res (world * pyval) :=
 Definition py_attr_label (w : world) (v : pyval) : res pyval :=
   match v with VTaxon t => Ok (VLabel (label_of w t)) | _ => Err AttrErr end.
 
-Definition py_attr_lower_cased_label (lower : lbl -> lbl) (w : world) (v : pyval) : res pyval :=
-  match v with VTaxon t => Ok (VLabel (lower (label_of w t))) | _ => Err AttrErr end.
+(* the case-normalising str methods; which one a piece of source uses is read off its AST *)
+Inductive strnorm := SLower | SCasefold.
 
-(* str(x).lower() *)
-Definition py_str_lower (lower : lbl -> lbl) (v : pyval) : res pyval :=
-  match v with VLabel l => Ok (VLabel (lower l)) | _ => Err OtherErr end.
+(* str(x).lower() / str(x).casefold() on a label: `lower` and `casefold` are two unrelated
+   functions on label ids (nothing is assumed about either) *)
+Definition py_str_norm (lower casefold : lbl -> lbl) (m : strnorm) (v : pyval) : res pyval :=
+  match v with
+  | VLabel l => Ok (VLabel (match m with SLower => lower l | SCasefold => casefold l end))
+  | _ => Err OtherErr
+  end.
 
 (* nexusprocessing.escape_nexus_token: labels are opaque ids, escaping is outside the model *)
 Definition py_escape_nexus_token (v : pyval) : res pyval :=
